@@ -17,6 +17,8 @@
 #endif
 
 #include <string>
+#include <list>
+#include <memory>
 #include <vector>
 
 using namespace kit;
@@ -25,6 +27,26 @@ namespace
 {
     int val_of(int x) { return x; }
     int val_of(const tracked::T &t) { return t.value(); }
+
+    // single-pass input iterator over the first `n` elements of a vector; all copies share the read position
+    template <class E> struct SinglePass
+    {
+        struct State { const std::vector<E> *src; size_t pos, n; };
+        typedef std::input_iterator_tag iterator_category;
+        typedef E value_type;
+        typedef std::ptrdiff_t difference_type;
+        typedef const E *pointer;
+        typedef const E &reference;
+        std::shared_ptr<State> st; // null: the end iterator
+        SinglePass() {}
+        explicit SinglePass(std::shared_ptr<State> s) : st(std::move(s)) {}
+        bool at_end() const { return !st || st->pos >= st->n; }
+        const E &operator*() const { return (*st->src)[st->pos < st->n ? st->pos : st->src->size() - 1]; }
+        SinglePass &operator++() { if (st && st->pos < st->n) st->pos++; return *this; }
+        SinglePass operator++(int) { SinglePass c = *this; ++*this; return c; }
+        bool operator==(const SinglePass &o) const { return at_end() == o.at_end(); }
+        bool operator!=(const SinglePass &o) const { return !(*this == o); }
+    };
 
     enum { S_PUSH, S_EMPLACE, S_RESIZE, S_ERASE, S_CLEAR, S_COPY_CTOR, S_MOVE_CTOR, S_COPY_ASSIGN, S_MOVE_ASSIGN, S_SELF_ASSIGN, S_CTOR_RANGE, S_CTOR_ILIST,
            S_FILL, S_N };
@@ -236,7 +258,27 @@ namespace
                 s[u].obj = new (s[u].mem) SV();
                 for (size_t i = 0; i < cnt; i++) s[u].obj->push_back(src[i]);
 #else
-                s[u].obj = new (s[u].mem) SV(src.data(), src.data() + cnt);
+                int style = (int)mod(arg(o, 3), 3);
+                if (style == 0) s[u].obj = new (s[u].mem) SV(src.data(), src.data() + cnt);
+                else if (style == 1)
+                {
+                    R.guard = false;
+                    std::list<E> lst(src.begin(), src.end());
+                    R.guard = true;
+                    s[u].obj = new (s[u].mem) SV(lst.begin(), lst.end());
+                    R.guard = false;
+                    probe("ctor_from_bidirectional_iterators");
+                }
+                else
+                {
+                    // a single-pass source (a reader draining a queue): every copy of the iterator advances the same source
+                    R.guard = false;
+                    src.emplace_back(-7777); // what an exhausted reader would hand out; not part of the range
+                    R.guard = true;
+                    auto st = std::make_shared<typename SinglePass<E>::State>(typename SinglePass<E>::State{&src, 0, cnt});
+                    s[u].obj = new (s[u].mem) SV(SinglePass<E>(st), SinglePass<E>());
+                    probe("ctor_from_single_pass_iterators");
+                }
 #endif
                 R.guard = false;
                 s[u].m = msrc;
